@@ -29,21 +29,24 @@ PROP = "C11"
 LEVEL = "exploration"
 RULE = ("(i)/(ii): every message length 0..144 with 2 types each (quick) / 16 seeds each (thorough) written over one hop and "
         "over a routed hop, frame ids incl. 0xFFFF wrap-around, plus for every fragment index k of 2..6-fragment messages the "
-        "fault 'all attempts of fragment k are lost' - for good, or until a seeded instant 0..150 ms later (biased to the 95-150 ms span around the moment the sender gives up) (write() completes the message or gives up and says which); (iii): header values swept directly - all 256 types x 256 reserved values, "
+        "fault 'all attempts of fragment k are lost' - for good, or until a seeded instant 0..150 ms later (biased to the 95-150 ms span around the moment the sender gives up) (write() completes the message or gives up and says which), and routed single-frame writes whose NETWORK_ACK is held up beyond a short route_timeout followed at once by a fragmented routed write (a stray NETWORK_ACK during the per-fragment wait); (iii): header values swept directly - all 256 types x 256 reserved values, "
         "all 65 536 frame ids, all 65 536 from/to values, string types, short buffers. Non-trivial: >= 2 fragments on the air or a "
         "direct-evaluation batch; distinct = distinct (length, type, id, fault index)")
 ASSUMPTIONS = ["reference fragmenter/reassembler in checks/netref.py (TMRh20 numbering)", "little-endian host (struct native order = '<' here)"]
 CLAUSES = {"fragments": "ceil(n/24) frames, one id, first/more/last, descending counter, type in the last reserved byte",
            "reassembly": "a TMRh20-style receiver reassembles exactly the original message", "restored": "caller's header shows its original type after sending",
            "layout": "8 bytes: origin, destination, id little-endian 16 bit, type, reserved; short buffers refused"}
-PROBES = ["outage_healed_in_time", "outage_outlasted_the_retries"]
+PROBES = ["outage_healed_in_time", "outage_outlasted_the_retries", "stray_network_ack_during_fragment_wait"]
 SHRINK_KEYS = ("msgs", "faults")
 CHUNK = 20
 NDIRECT = 8
 
 
+NLATE = 40
+
+
 def count(tier):
-    return NDIRECT + (145 * 2 + 60 if tier == "quick" else 145 * 16 + 600)
+    return NDIRECT + (145 * 2 + 60 if tier == "quick" else 145 * 16 + 600) + (NLATE if tier == "quick" else 10 * NLATE)
 
 
 def exhaustive(tier):
@@ -63,6 +66,16 @@ def make(i, base_seed, tier):
                 "msgs": [{"len": ln, "type": rng.choice([0, 1, 65, 127, rng.randint(0, 127)]), "seed": rng.getrandbits(20),
                           "fid": rng.choice([0, 1, 0xFFFE, 0xFFFF, rng.getrandbits(16)]), "strtype": rng.random() < 0.1}],
                 "toggle": rng.random() < 0.3}
+    if j >= 145 * per + (60 if tier == "quick" else 600):
+        # late NETWORK_ACK: a routed single-frame message of an acknowledged type whose NETWORK_ACK is held up beyond the sender's
+        # (short) route_timeout, followed at once by a fragmented routed message - the stray NETWORK_ACK arrives while the sender
+        # waits for the first fragment's: every frame of the second message must still carry that message's own header
+        # (the NETWORK_ACK is held up by an MCU stall of the relay 0o1 right after its radio stored it: explicit fault "stall_on_rx")
+        lr = stream(seed, "late")
+        return {"seed": seed, "kind": "air", "routed": True, "late_ack": True, "route_timeout": lr.choice([8, 10, 12]),
+                "faults": [], "stall_on_rx": {"node": 1, "ptype": 193, "ms": lr.uniform(8, 30)},
+                "msgs": [{"len": lr.randint(0, 24), "type": lr.randint(65, 127), "seed": lr.getrandbits(20), "fid": lr.getrandbits(16), "strtype": False},
+                         {"len": lr.randint(49, 144), "type": lr.randint(0, 127), "seed": lr.getrandbits(20), "fid": lr.getrandbits(16), "strtype": False}]}
     # fragment abort: all attempts of fragment k lost
     nfr = rng.randint(2, 6)
     k = rng.randrange(nfr)
@@ -78,8 +91,10 @@ def make(i, base_seed, tier):
         hr = stream(seed, "heal")
         x_ms = hr.uniform(95, 150) if hr.random() < 0.6 else hr.uniform(0, 95)     # the sender gives up about 105-110 ms after the first attempt
         rule["t1"] = int((2 + x_ms) * MS)
+        # ... and whatever became of it, the next message goes out as exactly its own frames (nothing left over in the radio)
         return {"seed": seed, "kind": "air", "routed": False, "faults": [rule], "heals": True,
-                "msgs": [{"len": ln, "type": typ, "seed": rng.getrandbits(20), "fid": rng.getrandbits(16), "strtype": False}]}
+                "msgs": [{"len": ln, "type": typ, "seed": rng.getrandbits(20), "fid": rng.getrandbits(16), "strtype": False},
+                         {"len": hr.randint(1, 70), "type": hr.randint(0, 127), "seed": hr.getrandbits(20), "fid": hr.getrandbits(16), "strtype": False}]}
     return {"seed": seed, "kind": "air", "routed": False, "faults": [rule], "abort_at": k,
             "msgs": [{"len": ln, "type": typ, "seed": rng.getrandbits(20), "fid": rng.getrandbits(16), "strtype": False}]}
 
@@ -195,6 +210,53 @@ def run(scn):
     return res
 
 
+def _late_ack(scn, w, net, res, dst_key, dst):
+    sim = w.sim
+    msgs = [(m, payload(m["seed"], m["len"])) for m in scn["msgs"]]
+    a0 = len(w.air.trace)
+
+    def do(node):
+        node.route_timeout = scn["route_timeout"]
+        out = []
+        for (m, data) in msgs:
+            h = RF24NetworkHeader(dst, m["type"])
+            h.frame_id = m["fid"]
+            out.append(node.write(RF24NetworkFrame(h, data)))
+        return out
+    c = net.call(9, "write", do, timeout=20_000 * MS)
+    net.wait_quiet(quiet=8 * MS, timeout=2000 * MS)
+    if not c.done or c.exc is not None:
+        res.add("fragments", {"kind": "write_raised_or_hung", "exc": type(c.exc).__name__}, "write() %r" % (c.exc,))
+        return
+    if c.result[0] is False:
+        sim.count("first_write_timed_out")
+    acks = [t for t in w.air.trace[a0:] if t["src"] == "n1" and not t["ack"] and len(t["data"]) >= 8 and t["data"][6] == 193 and ("n9", "stored") in [tuple(x) for x in t["rx"]]]
+    frag_t = [t["t0"] for t in w.air.trace[a0:] if t["src"] == "n9" and not t["ack"] and len(t["data"]) >= 8 and t["data"][6] == 148]
+    if c.result[0] is False and acks and frag_t and acks[0]["t0"] > frag_t[0]:
+        sim.count("stray_network_ack_during_fragment_wait")
+    sent = []
+    for t in w.air.trace[a0:]:
+        if t["src"] == "n9" and not t["ack"] and (not sent or sent[-1] != t["data"]):
+            sent.append(t["data"])
+    ref = []
+    for (m, data) in msgs:
+        ref += netref.fragment(0o11, dst, m["fid"], m["type"], data)
+    want = ref if c.result[1] else ref[:len(sent)]
+    if sent != want:
+        bad = next((j for j in range(min(len(sent), len(want))) if sent[j] != want[j]), min(len(sent), len(want)))
+        res.add("fragments", {"kind": "frame_mismatch", "late_ack": True, "at": min(bad, 2)},
+                "after a routed write whose NETWORK_ACK came late, frame %d on the air is %s, reference says %s (%d frames sent, %d expected; write() results %r)"
+                % (bad, sent[bad].hex() if bad < len(sent) else None, want[bad].hex() if bad < len(want) else None, len(sent), len(want), c.result))
+        return
+    res.nontrivial = True
+    if c.result[1]:
+        ra = netref.TmrhReassembler()
+        for f in sent:
+            ra.feed(f)
+        if ra.out != [(0o11, dst, m["fid"], m["type"], data) for (m, data) in msgs]:
+            res.add("reassembly", {"kind": "reference_receiver", "late_ack": True}, "a TMRh20-style receiver fed with the sniffed frames returned %r" % [(oct(o[0]), o[3], len(o[4])) for o in ra.out])
+
+
 def _run(scn, w, net, res):
     sim = w.sim
     fast = {"spi_overhead_us": 10, "spi_jitter_us": 2, "poll_us": 100}
@@ -203,9 +265,28 @@ def _run(scn, w, net, res):
     net.add(1, "net", 0o1, knobs=fast)
     if routed:
         net.add(2, "net", 0o2, knobs=fast)
+    if scn.get("late_ack"):
+        net.add(9, "net", 0o11, knobs=fast)       # the sender of this family: 0o11 -> 0o1 -> 0 -> 0o2
+        rule = scn["stall_on_rx"]
+        relay = net.nodes[rule["node"]]
+        fired = []
+
+        def on_store(pipe, data, relay=relay):
+            # explicit fault: the relay's MCU stalls right after its radio stored the first frame of the given type
+            if not fired and len(data) >= 8 and data[6] == rule["ptype"]:
+                fired.append(sim.now)
+                relay.mcu.pending_stall = int(rule["ms"] * MS)
+                sim.count("fault:mcu_stall_on_rx")
+        relay.radio.on_store = on_store
     net.start()
     sim.advance(2 * MS)
     dst_key, dst = (2, 0o2) if routed else (0, 0)
+    if scn.get("late_ack"):
+        _late_ack(scn, w, net, res, dst_key, dst)
+        net.shutdown()
+        res.isig = hashlib.blake2b(repr((scn["msgs"], scn["stall_on_rx"], "late")).encode(), digest_size=8).hexdigest()
+        res.sample = {"msgs": [(m["len"], m["type"], m["fid"]) for m in scn["msgs"]], "late_ack": True, "routed": True}
+        return
     for m in scn["msgs"]:
         data = payload(m["seed"], m["len"])
         typ = m["type"]
